@@ -72,3 +72,19 @@ def load(report, crate, config="plain", crate_name=None, crate_dir=None):
         else:
             report.note("skipped (belongs to %s): %s" % (",".join(sorted(props)), msg))
     return Loaded(crate, config, c, failures, wall)
+
+
+def load_repo_tests(report):
+    """Thorough tier: the repository's own integration-test crate (tests/it, ~110 entrait invocations, built
+    in test mode with the unimock feature and the real mockall / async-trait / feignhttp) as an additional
+    corpus for the uniform rules. It is only *type-checked* under the driver, never run."""
+    from .common import REPO
+    from .facts import run_driver
+    facts, diags, wall = run_driver(REPO, "it", cargo_args=("-p", "entrait", "--test", "it", "--features", "unimock"), only="it")
+    if facts is None:
+        errs = [d for d in diags if d["level"] == "error"]
+        raise CheckError("the repository's tests/it target does not compile: %s" % (errs[0]["rendered"] if errs else "?"))
+    c = Crate(facts, REPO)
+    report.count("repo_tests_expansions", len(c.expansions))
+    log("  corpus /repo/tests/it[unimock_test]: %d defs, %d entrait expansions (%.1fs)" % (len(c.defs), len(c.expansions), wall))
+    return Loaded("repo_tests", "unimock_test", c, {}, wall)
